@@ -33,6 +33,9 @@ type Builder struct {
 	// PartHeader, when set, is used (the same map, not a copy) as the custom header of every multipart file
 	// built: callers may share one read-only header map between uploads
 	PartHeader textproto.MIMEHeader
+	// Big > 0: the next string leaf built is Big bytes long (then Big is cleared): one large member per value, for the
+	// size limits a body reader may apply
+	Big int
 }
 
 var (
@@ -114,6 +117,11 @@ const coreAlphabet = "abcdefghijklmnopqrstuvwxyzABCDEFGHIJKLMNOPQRSTUVWXYZ012345
 
 func (b *Builder) str() string {
 	r := b.Rng
+	if b.Big > 0 {
+		n := b.Big
+		b.Big = 0
+		return strings.Repeat("d", n)
+	}
 	var s string
 	switch {
 	case b.Tame:
